@@ -95,7 +95,7 @@ def run_cases(ctx, f, val, calls=None, unroll=1):
 
 
 # ---------------------------------------------------------------------------
-@rule("SIB6", ["C16", "C02"])
+@rule("SIB6", ["C16", "C02", "C01", "C03", "C07", "C08", "C10"])
 def sib6(ctx, pid):
     """Hex-prefix tables by constant propagation: encoder (terminated, odd) -> prefix nibbles;
     decoder flag -> (terminated, nibbles skipped); both equal the Yellow Paper table."""
@@ -256,7 +256,7 @@ def _check_terminator_helpers(ctx):
 
 
 # ---------------------------------------------------------------------------
-@rule("EXC6", ["C16"])
+@rule("EXC6", ["C16", "C12", "C13"])
 def exc6(ctx, pid):
     """parse_node: accept exactly the layouts the encoders produce, reject everything else with InvalidNode (SIB7 + EXC6)."""
     eng = S(ctx)
@@ -546,7 +546,7 @@ SHAPES = [Shape("blank", True, 0, None), Shape("kv-terminated", False, 2, True),
           Shape("branch", False, 17, None), Shape("other", False, 3, None)]
 
 
-@rule("SIB8", ["C16", "C08"])
+@rule("SIB8", ["C16", "C08", "C01", "C02", "C03", "C07", "C10"])
 def sib8(ctx, pid):
     """Node classifiers agree on every node shape; leaf/extension key helpers are call-composition duals."""
     cm = ctx.P.modules["trie.constants"]
@@ -682,7 +682,7 @@ def sib8(ctx, pid):
 
 
 # ---------------------------------------------------------------------------
-@rule("PROV9", ["C16"])
+@rule("PROV9", ["C16", "C01", "C03", "C08", "C10"])
 def prov9(ctx, pid):
     """Nibble lookup tables: forward table is (byte >> 4, byte & 15) over range(256), the reverse table is
     its inversion; nibbles_to_bytes validates range and parity before packing pairs."""
@@ -779,7 +779,7 @@ def _ieval(t, lenof, n):
     return None
 
 
-@rule("SIB7b", ["C16"])
+@rule("SIB7b", ["C16", "C12", "C13"])
 def sib7b(ctx, pid):
     """Bit-string packing: writer and reader agree on bit order (MSB first) and on the header layout of the
     key-path packing (flag nibble, 2-bit length-mod-4 field, zero padding), decided by constant propagation
